@@ -507,10 +507,10 @@ def lin_jobs(tier, seed, ops=None, checks=None, regs=("ridge", "ucb", "ts"), tag
             if checks is not None:
                 common["checks"] = checks
             grid = LIN_GRIDS[d]
-            depth = 4 if tier == "thorough" else 3
+            depth = 4 if tier == "thorough" and d == 1 else 3      # d = 2 at depth 4 is beyond TLC within the time allowed
             base = dict(grid, Lambda=lam, Ops=set(ops))
             base.update(over or {})
-            jobs.append(dict(common, name="lin%s-d%d-l%s-bfs" % (tag, d, "_".join(map(str, lam))), mode="bfs",
+            jobs.append(dict(common, name="lin%s-d%d-l%s-bfs" % (tag, d, "_".join(map(str, lam))), mode="bfs", timeout=2400,
                              consts=ecf.lin_consts(**dict(base, MaxDepth=depth, MaxHist=3, MaxBatch=1))))
             n = 300 if tier == "thorough" else 80
             jobs.append(dict(common, name="lin%s-d%d-l%s-sim" % (tag, d, "_".join(map(str, lam))), mode="sim", sim_num=n,
